@@ -63,6 +63,13 @@ Theorem rounding_is_monotone_and_close : forall a b,
 Proof. intros a b. split; [apply Proofs.Verdict.round2_mono | apply Proofs.Verdict.round2_close]. Qed.
 Print Assumptions rounding_is_monotone_and_close.
 
+(* the metric clears a threshold exactly when every channel (GSNR_0.1nm - penalties, rounded) does *)
+Theorem worst_channel_clears_iff : forall T f m thr, metric T f = Ok m ->
+  exists l, chan_mets T (f_g01 f) (f_cd f) (f_pmd f) (f_pdl f) = Ok l /\ l <> [] /\
+    (met_le (MFin thr) m <-> forall y, In y l -> met_le (MFin thr) (met_round2 y)).
+Proof. exact Proofs.Verdict.metric_clears_iff. Qed.
+Print Assumptions worst_channel_clears_iff.
+
 (* ---- fixed mode: feasible iff the metric of the path (and of the reverse path) is at least OSNR + margin ---- *)
 Theorem verdict_fixed_spec : forall thr fwd rev,
   (decide_fixed thr fwd rev = None <->
@@ -153,6 +160,18 @@ Theorem mode_loop_no_baudrate : forall margin P lib sp,
   mode_loop margin P lib sp = NoBaudrate <-> forall m, In m lib -> fits sp m = false.
 Proof. exact Proofs.Verdict.mode_loop_nobaud. Qed.
 Print Assumptions mode_loop_no_baudrate.
+
+(* bookkeeping after the loop: feasible iff a mode was selected and (bidirectional) the reverse path clears that mode's
+   threshold; NO_FEASIBLE_MODE / NO_FEASIBLE_BAUDRATE_WITH_SPACING are kept; a failing reverse path gives MODE_NOT_FEASIBLE *)
+Theorem decide_auto_spec : forall margin o rev,
+  (decide_auto margin o rev = None <->
+     exists it m, o = Selected it m /\ forall r, rev = Some r -> met_le (MFin (m_osnr m + margin)) r) /\
+  (forall it m, o = NoFeasibleMode it m -> decide_auto margin o rev = Some "NO_FEASIBLE_MODE"%string) /\
+  (o = NoBaudrate -> decide_auto margin o rev = Some "NO_FEASIBLE_BAUDRATE_WITH_SPACING"%string) /\
+  (forall it m r, o = Selected it m -> rev = Some r -> ~ met_le (MFin (m_osnr m + margin)) r ->
+     decide_auto margin o rev = Some MODE_NOT_FEASIBLE).
+Proof. exact Proofs.Verdict.decide_auto_spec. Qed.
+Print Assumptions decide_auto_spec.
 
 (* Pass / Fail are the strict comparison of the metric with OSNR + margin *)
 Theorem pass_is_strict : forall margin P it m,
